@@ -7,6 +7,7 @@ mod resprig;
 mod routerig;
 mod cluster;
 mod metarig;
+mod migrig;
 mod compressrig;
 mod sched;
 mod simnet;
@@ -206,6 +207,15 @@ fn cmd_meta_cases(m: &HashMap<String, String>) -> i32 {
     0
 }
 
+fn cmd_migration_runs(m: &HashMap<String, String>) -> i32 {
+    let out = m.get("out").expect("--out");
+    let f = std::fs::File::create(out).expect("create");
+    let mut w = BufWriter::new(f);
+    migrig::run_many(&mut w, geti(m, "count", 2u64), geti(m, "seed", 1u64), m.contains_key("directed"));
+    w.flush().ok();
+    0
+}
+
 fn main() {
     let args: Vec<String> = std::env::args().collect();
     if args.len() < 2 {
@@ -227,6 +237,7 @@ fn main() {
         "wire-cases" => cmd_wire_cases(&m),
         "compress-cases" => cmd_compress_cases(&m),
         "meta-cases" => cmd_meta_cases(&m),
+        "migration-runs" => cmd_migration_runs(&m),
         other => {
             eprintln!("unknown subcommand {}", other);
             2
